@@ -1,14 +1,16 @@
 ----------------------------- MODULE TraceScale -----------------------------
-(* Code -> spec at REALISTIC SCALE: long histories recorded from structures of hundreds to thousands of cells, many real
-   string / bytes keys, the library's own hash functions, several growth / resize / rotation events.  The abstract state is
-   sparse (sets of set positions, sparse counter maps, a set of 32-bit hashes), so TLC replays thousands of events per second.
-   pos[k] is what the structure's hash function yielded for key k (recorded once per key by calling that function),
-   already reduced modulo the structure's size where the structure reduces it.
-   A trace: [id, kind, m, k, w, d, est, qmax, q, auto, pos, ev]; an event: [op, k, a, ret, n, probes, full, aux].
+(* Code -> spec at REALISTIC SCALE: long histories recorded from structures of hundreds up to ~10^6 cells, thousands of real
+   string / bytes keys, the library's own hash functions, several growth / resize / rotation / expansion events, reloads and
+   unions.  The abstract state is sparse (sets of set positions, bags of counters, a set of 32-bit hashes, a bag of outstanding
+   additions), and additions may come in batches, so TLC replays tens of thousands of additions in seconds.
+   pos[k] is what the structure's hash function yielded for key k (recorded once per key by calling that function), already
+   reduced modulo the structure's size where the structure reduces it (cuckoo: the key's fingerprint class).
+   A trace: [id, kind, m, k, w, d, est, qmax, q, auto, pos, ev];
+   an event: [op, ks, a, ret, n, probes, full, aux]   with ks = sequence of <<key index, amount>> (one element for a single call)
      probes : sequence of <<key index, answer of the real structure>> taken right after the operation
-     full   : (every few events) the complete observable state, for exact comparison
-   One verdict per trace; clause names carry the property they belong to.                                            *)
-EXTENDS Integers, Sequences, FiniteSets, TLC, Json
+     full   : (now and then) the complete observable state, for exact comparison
+   One verdict per trace; clause names carry the property they belong to (DRIFT.* = conformance only).                      *)
+EXTENDS Integers, Sequences, FiniteSets, Bags, TLC, Json
 
 Traces == JsonDeserialize("traces.json")
 NT == Len(Traces)
@@ -17,116 +19,172 @@ VARIABLES tid, l, st, fails
 vars == <<tid, l, st, fails>>
 T == Traces[tid]
 
-Get(f, p) == IF p \in DOMAIN f THEN f[p] ELSE 0
-Put(f, p, v) == [x \in (DOMAIN f) \cup {p} |-> IF x = p THEN v ELSE f[x]]
+Cnt(b, x) == IF x \in DOMAIN b THEN b[x] ELSE 0
 PosSet(k) == {T.pos[k][i] : i \in 1..Len(T.pos[k])}
 MinOf(S) == CHOOSE x \in S : \A y \in S : x <= y
 RECURSIVE P2(_)
 P2(n) == IF n = 0 THEN 1 ELSE 2 * P2(n - 1)
 
+(* bag of the cells of one key, each occurrence weighted by a (coinciding positions count twice) *)
+RECURSIVE KeyBag(_, _, _)
+KeyBag(ps, a, i) == IF i > Len(ps) THEN EmptyBag ELSE (ps[i] :> a) (+) KeyBag(ps, a, i + 1)
+(* balanced folds over a batch <<k, a>>, ... : cells touched, and keys touched *)
+RECURSIVE CellBag(_, _, _)
+CellBag(ks, lo, hi) == IF lo > hi THEN EmptyBag
+                       ELSE IF lo = hi THEN KeyBag(T.pos[ks[lo][1]], ks[lo][2], 1)
+                       ELSE LET mid == (lo + hi) \div 2 IN CellBag(ks, lo, mid) (+) CellBag(ks, mid + 1, hi)
+RECURSIVE KeysBag(_, _, _)
+KeysBag(ks, lo, hi) == IF lo > hi THEN EmptyBag
+                       ELSE IF lo = hi THEN (ks[lo][1] :> ks[lo][2])
+                       ELSE LET mid == (lo + hi) \div 2 IN KeysBag(ks, lo, mid) (+) KeysBag(ks, mid + 1, hi)
+AllPos(ks) == UNION {PosSet(ks[i][1]) : i \in 1..Len(ks)}
+
 NewSub == [bits |-> {}, n |-> 0]
 InitState(t) ==
   IF t > NT THEN [n |-> 0]
   ELSE LET tr == Traces[t] IN
-       CASE tr.kind \in {"bloom", "disk"} -> [bits |-> {}, n |-> 0, out |-> [i \in 1..Len(tr.pos) |-> 0]]
-         [] tr.kind \in {"cbloom", "cms"} -> [c |-> <<>>, n |-> 0, out |-> [i \in 1..Len(tr.pos) |-> 0]]
-         [] tr.kind \in {"ebf", "rbf"} -> [subs |-> <<NewSub>>, n |-> 0, eff |-> 0, manual |-> FALSE,
-                                           ins |-> [i \in 1..Len(tr.pos) |-> 0], man |-> [i \in 1..Len(tr.pos) |-> FALSE]]
+       CASE tr.kind \in {"bloom", "disk"} -> [bits |-> {}, n |-> 0, out |-> EmptyBag]
+         [] tr.kind \in {"cbloom", "cms"} -> [c |-> EmptyBag, n |-> 0, out |-> EmptyBag]
+         [] tr.kind \in {"ebf", "rbf"} -> [subs |-> <<NewSub>>, n |-> 0, eff |-> 0, manual |-> FALSE, ins |-> EmptyBag, man |-> {}]
+         [] tr.kind \in {"cko", "ccko"} -> [out |-> EmptyBag, n |-> 0]
          [] OTHER -> [S |-> {}, q |-> tr.q, n |-> 0]
 
 -----------------------------------------------------------------------------
-RECURSIVE AddSeq(_, _, _, _)
-AddSeq(c, ps, a, i) == IF i > Len(ps) THEN c ELSE AddSeq(Put(c, ps[i], Get(c, ps[i]) + a), ps, a, i + 1)
-CellsOf(c, ps) == {Get(c, ps[i]) : i \in 1..Len(ps)}
 InSub(s, k) == PosSet(k) \subseteq s.bits
 InSubs(ss, k) == \E i \in 1..Len(ss) : InSub(ss[i], k)
-
 Grow(ss) ==
   LET last == ss[Len(ss)] IN
   IF T.kind = "ebf" THEN (IF last.n >= T.est THEN Append(ss, NewSub) ELSE ss)
   ELSE IF last.n = T.est THEN (IF Len(ss) < T.qmax THEN Append(ss, NewSub) ELSE Append(Tail(ss), NewSub)) ELSE ss
 
+(* expanding / rotating: one add *)
+EbfAdd(s, k, force) ==
+  LET was == InSubs(s.subs, k)  effv == force = 1 \/ ~was  g == Grow(s.subs) IN
+  [s EXCEPT !.n = @ + 1,
+            !.subs = IF effv THEN [g EXCEPT ![Len(g)] = [bits |-> @.bits \cup PosSet(k), n |-> @.n + 1]] ELSE @,
+            !.eff = IF effv THEN @ + 1 ELSE @,
+            !.ins = IF ~was THEN [x \in (DOMAIN @) \cup {k} |-> IF x = k THEN s.eff + 1 ELSE @[x]] ELSE @,
+            !.man = IF ~was THEN @ \ {k} ELSE @]
+RECURSIVE EbfFold(_, _, _)
+EbfFold(s, ks, i) == IF i > Len(ks) THEN s ELSE EbfFold(EbfAdd(s, ks[i][1], ks[i][2]), ks, i + 1)
+
+(* quotient filter: hash <<hi, lo>> *)
+H(k) == <<T.pos[k][1], T.pos[k][2]>>
+QfAdd(s, k) == LET g == IF T.auto /\ 100 * s.n >= 85 * P2(s.q) THEN s.q + 1 ELSE s.q IN
+               IF H(k) \in s.S THEN [s EXCEPT !.q = g] ELSE [S |-> s.S \cup {H(k)}, q |-> g, n |-> s.n + 1]
+QfRem(s, k) == IF H(k) \in s.S THEN [s EXCEPT !.S = @ \ {H(k)}, !.n = @ - 1] ELSE s
+RECURSIVE QfFold(_, _, _, _)
+QfFold(s, ks, i, add) == IF i > Len(ks) THEN s ELSE QfFold(IF add THEN QfAdd(s, ks[i][1]) ELSE QfRem(s, ks[i][1]), ks, i + 1, add)
 RECURSIVE FinalQ(_, _)
 FinalQ(qq, cnt) == IF T.auto /\ cnt >= 1 /\ 100 * (cnt - 1) >= 85 * P2(qq) THEN FinalQ(qq + 1, cnt) ELSE qq
 
+(* cuckoo: the history oracle only - outstanding additions per fingerprint class (pos[k][1]); evictions are not modelled here *)
+RECURSIVE CkFold(_, _, _, _)
+CkFold(s, ks, i, add) ==
+  IF i > Len(ks) THEN s
+  ELSE LET f == T.pos[ks[i][1]][1]  have == Cnt(s.out, f) IN
+       CkFold(IF add THEN (IF T.kind = "ccko" THEN [out |-> s.out (+) (f :> 1), n |-> s.n + 1]
+                           ELSE IF have > 0 THEN s ELSE [out |-> s.out (+) (f :> 1), n |-> s.n + 1])
+              ELSE (IF have = 0 THEN s
+                    ELSE IF T.kind = "ccko" THEN [out |-> s.out (-) (f :> 1), n |-> s.n - 1]
+                    ELSE [out |-> s.out (-) (f :> have), n |-> s.n - 1]),
+              ks, i + 1, add)
+
+RECURSIVE ClassBag(_, _, _)
+ClassBag(ks, lo, hi) == IF lo > hi THEN EmptyBag
+                        ELSE IF lo = hi THEN (T.pos[ks[lo][1]][1] :> 1)
+                        ELSE LET mid == (lo + hi) \div 2 IN ClassBag(ks, lo, mid) (+) ClassBag(ks, mid + 1, hi)
+SumBag(b) == BagCardinality(b)
+
 Apply(s, e) ==
-  LET ps == IF e.k > 0 THEN T.pos[e.k] ELSE <<>> IN
+  LET ks == e.ks IN
   CASE T.kind \in {"bloom", "disk"} ->
-         (CASE e.op = "add" -> [s EXCEPT !.bits = @ \cup PosSet(e.k), !.n = @ + 1, !.out[e.k] = @ + 1]
-            [] e.op = "clear" -> [bits |-> {}, n |-> 0, out |-> [i \in 1..Len(T.pos) |-> 0]]
-            [] OTHER -> s)                                    \* reload / reopen / union with itself: identity
-    [] T.kind = "cbloom" ->
-         (CASE e.op = "add" -> [s EXCEPT !.c = AddSeq(@, ps, e.a, 1), !.n = @ + e.a, !.out[e.k] = @ + e.a]
-            [] e.op = "rem" -> LET mv == MinOf(CellsOf(s.c, ps))  t == IF e.a < mv THEN e.a ELSE mv IN
-                               IF mv = 0 THEN s ELSE [s EXCEPT !.c = AddSeq(@, ps, 0 - t, 1), !.n = @ - t, !.out[e.k] = IF @ >= t THEN @ - t ELSE 0]
-            [] e.op = "clear" -> [c |-> <<>>, n |-> 0, out |-> [i \in 1..Len(T.pos) |-> 0]]
-            [] OTHER -> s)
-    [] T.kind = "cms" ->
-         (CASE e.op = "add" -> [s EXCEPT !.c = AddSeq(@, ps, e.a, 1), !.n = @ + e.a, !.out[e.k] = @ + e.a]
-            [] e.op = "rem" -> [s EXCEPT !.c = AddSeq(@, ps, 0 - e.a, 1), !.n = @ - e.a, !.out[e.k] = @ - e.a]
-            [] e.op = "clear" -> [c |-> <<>>, n |-> 0, out |-> [i \in 1..Len(T.pos) |-> 0]]
+         (CASE e.op = "add" -> [s EXCEPT !.bits = @ \cup AllPos(ks), !.n = @ + Len(ks), !.out = @ (+) KeysBag(ks, 1, Len(ks))]
+            [] e.op = "clear" -> [bits |-> {}, n |-> 0, out |-> EmptyBag]
+            [] OTHER -> s)                                    \* reload / reopen / union (a query): identity
+    [] T.kind \in {"cbloom", "cms"} ->
+         (CASE e.op = "add" -> [s EXCEPT !.c = @ (+) CellBag(ks, 1, Len(ks)), !.n = @ + SumBag(KeysBag(ks, 1, Len(ks))), !.out = @ (+) KeysBag(ks, 1, Len(ks))]
+            [] e.op = "rem" ->      \* legitimate removals only (amount <= outstanding): every cell stays >= 0
+                 [s EXCEPT !.c = @ (-) CellBag(ks, 1, Len(ks)), !.n = @ - SumBag(KeysBag(ks, 1, Len(ks))), !.out = @ (-) KeysBag(ks, 1, Len(ks))]
+            [] e.op = "clear" -> [c |-> EmptyBag, n |-> 0, out |-> EmptyBag]
             [] OTHER -> s)
     [] T.kind \in {"ebf", "rbf"} ->
-         (CASE e.op = "add" ->
-                 LET was == InSubs(s.subs, e.k)  effv == e.a = 1 \/ ~was
-                     g == Grow(s.subs) IN
-                 [s EXCEPT !.n = @ + 1,
-                           !.subs = IF effv THEN [g EXCEPT ![Len(g)] = [bits |-> @.bits \cup PosSet(e.k), n |-> @.n + 1]] ELSE @,
-                           !.eff = IF effv THEN @ + 1 ELSE @,
-                           !.ins[e.k] = IF ~was THEN s.eff + 1 ELSE @,
-                           !.man[e.k] = IF ~was THEN FALSE ELSE @]
+         (CASE e.op = "add" -> EbfFold(s, ks, 1)
             [] e.op = "push" ->
                  [s EXCEPT !.subs = IF T.kind = "rbf" /\ Len(@) >= T.qmax THEN Append(Tail(@), NewSub) ELSE Append(@, NewSub),
-                           !.manual = TRUE, !.man = [i \in 1..Len(T.pos) |-> TRUE]]
-            [] e.op = "pop" -> [s EXCEPT !.subs = Tail(@), !.manual = TRUE, !.man = [i \in 1..Len(T.pos) |-> TRUE]]
+                           !.manual = TRUE, !.man = DOMAIN s.ins]
+            [] e.op = "pop" -> [s EXCEPT !.subs = Tail(@), !.manual = TRUE, !.man = DOMAIN s.ins]
             [] OTHER -> s)
-    [] OTHER ->                                               \* quotient filter: h = <<hi, lo>>
-         (LET h == IF e.k > 0 THEN <<ps[1], ps[2]>> ELSE <<0, 0>> IN
-          CASE e.op = "add" ->
-                 LET g == IF T.auto /\ 100 * s.n >= 85 * P2(s.q) THEN s.q + 1 ELSE s.q IN
-                 IF h \in s.S THEN [s EXCEPT !.q = g] ELSE [S |-> s.S \cup {h}, q |-> g, n |-> s.n + 1]
-            [] e.op = "rem" -> IF h \in s.S THEN [s EXCEPT !.S = @ \ {h}, !.n = @ - 1] ELSE s
+    [] T.kind \in {"cko", "ccko"} ->
+         (CASE e.op = "add" ->       \* a batch of successful adds is order-independent for the oracle
+                 LET fb == ClassBag(ks, 1, Len(ks)) IN
+                 IF T.kind = "ccko" THEN [out |-> s.out (+) fb, n |-> s.n + Len(ks)]
+                 ELSE LET new == (DOMAIN fb) \ (DOMAIN s.out) IN [out |-> s.out (+) SetToBag(new), n |-> s.n + Cardinality(new)]
+            [] e.op = "rem" -> CkFold(s, ks, 1, FALSE)
+            [] OTHER -> s)                                    \* failed add, expand, reload: the oracle does not change
+    [] OTHER ->
+         (CASE e.op = "add" -> QfFold(s, ks, 1, TRUE)
+            [] e.op = "rem" -> QfFold(s, ks, 1, FALSE)
             [] e.op = "rsz" -> [s EXCEPT !.q = FinalQ(e.a, s.n)]
             [] OTHER -> s)
 
 -----------------------------------------------------------------------------
+CellsMin(c, ps) == MinOf({Cnt(c, ps[i]) : i \in 1..Len(ps)})
 Answer(s, k) ==
   CASE T.kind \in {"bloom", "disk"} -> IF PosSet(k) \subseteq s.bits THEN 1 ELSE 0
-    [] T.kind \in {"cbloom", "cms"} -> MinOf(CellsOf(s.c, T.pos[k]))
+    [] T.kind \in {"cbloom", "cms"} -> CellsMin(s.c, T.pos[k])
     [] T.kind \in {"ebf", "rbf"} -> IF InSubs(s.subs, k) THEN 1 ELSE 0
-    [] OTHER -> IF <<T.pos[k][1], T.pos[k][2]>> \in s.S THEN 1 ELSE 0
+    [] T.kind = "cko" -> IF Cnt(s.out, T.pos[k][1]) > 0 THEN 1 ELSE 0
+    [] T.kind = "ccko" -> Cnt(s.out, T.pos[k][1])
+    [] OTHER -> IF H(k) \in s.S THEN 1 ELSE 0
 
 FullOK(s, e) ==
-  CASE T.kind \in {"bloom", "disk"} -> {e.full[i] : i \in 1..Len(e.full)} = s.bits
-    [] T.kind \in {"cbloom", "cms"} -> /\ \A i \in 1..Len(e.full) : Get(s.c, e.full[i][1]) = e.full[i][2]
-                                       /\ \A p \in DOMAIN s.c : s.c[p] # 0 => \E i \in 1..Len(e.full) : e.full[i][1] = p
+  CASE T.kind \in {"bloom", "disk"} ->
+         IF e.op = "union" THEN {e.full[i] : i \in 1..Len(e.full)} = s.bits \cup AllPos(e.ks)     \* the union of this filter with a filter holding ks
+         ELSE {e.full[i] : i \in 1..Len(e.full)} = s.bits
+    [] T.kind \in {"cbloom", "cms"} -> /\ \A i \in 1..Len(e.full) : Cnt(s.c, e.full[i][1]) = e.full[i][2]
+                                       /\ Len(e.full) = Cardinality(DOMAIN s.c)
     [] T.kind \in {"ebf", "rbf"} -> /\ Len(e.full) = Len(s.subs)
                                     /\ \A i \in 1..Len(e.full) : /\ e.full[i].n = s.subs[i].n
                                                                  /\ {e.full[i].bits[j] : j \in 1..Len(e.full[i].bits)} = s.subs[i].bits
+    [] T.kind \in {"cko", "ccko"} -> TRUE
     [] OTHER -> /\ Len(e.full) = Cardinality(s.S)                       \* hashes(): exactly the set, no duplicates
                 /\ {<<e.full[i][1], e.full[i][2]>> : i \in 1..Len(e.full)} = s.S
+
+Owed(s, k) ==   \* the history says the key must be reported (outstanding additions)
+  CASE T.kind \in {"bloom", "disk", "cbloom", "cms"} -> Cnt(s.out, k)
+    [] T.kind = "ebf" -> IF k \in DOMAIN s.ins THEN 1 ELSE 0
+    [] T.kind \in {"cko", "ccko"} -> Cnt(s.out, T.pos[k][1])
+    [] OTHER -> 0
 
 Bad(s, e) ==     \* s = model state after the event
   LET pr == e.probes
       kind == T.kind
-      presentKeys == {i \in 1..Len(pr) : pr[i][1] > 0}
+      I == 1..Len(pr)
+      unionEv == e.op = "union"
+      su == IF unionEv THEN [s EXCEPT !.bits = @ \cup AllPos(e.ks), !.out = @ (+) KeysBag(e.ks, 1, Len(e.ks))] ELSE s   \* probes of a union event are taken on the result
   IN
-  (IF e.n # s.n THEN {IF kind = "qf" THEN "C04.count" ELSE "C14.count." \o kind} ELSE {})
-  \cup (IF kind \in {"bloom", "disk", "ebf"} /\ \E i \in presentKeys : (IF kind = "ebf" THEN s.ins[pr[i][1]] > 0 ELSE s.out[pr[i][1]] > 0) /\ pr[i][2] = 0
-        THEN {"C01.present." \o kind} ELSE {})
-  \cup (IF kind = "cbloom" /\ \E i \in presentKeys : pr[i][2] < s.out[pr[i][1]] THEN {"C08.cb_lower"} ELSE {})
-  \cup (IF kind = "cms" /\ \E i \in presentKeys : (\A j \in 1..Len(s.out) : s.out[j] >= 0) /\ (pr[i][2] < s.out[pr[i][1]] \/ pr[i][2] > s.n)
-        THEN {"C02.bounds"} ELSE {})
-  \cup (IF kind = "cms" /\ e.op \in {"add", "rem"} /\ e.ret # Answer(s, e.k) THEN {"C02.ret_eq_check"} ELSE {})
-  \cup (IF kind = "qf" /\ \E i \in presentKeys : pr[i][2] # Answer(s, pr[i][1]) THEN {"C04.member"} ELSE {})
+  (IF ~unionEv /\ e.n # s.n THEN {IF kind = "qf" THEN "C04.count" ELSE "C14.count." \o kind} ELSE {})
+  \cup (IF kind \in {"bloom", "disk", "ebf"} /\ \E i \in I : Owed(su, pr[i][1]) > 0 /\ pr[i][2] = 0
+        THEN {IF unionEv THEN "C01.present_after_union" ELSE "C01.present." \o kind} ELSE {})
+  \cup (IF unionEv /\ Len(e.full) > 0 /\ ~FullOK(s, e) THEN {"C12.cells"} ELSE {})
+  \cup (IF kind = "cbloom" /\ \E i \in I : pr[i][2] < Owed(s, pr[i][1]) THEN {"C08.cb_lower"} ELSE {})
+  \cup (IF kind = "cms" /\ \E i \in I : (pr[i][2] < Owed(s, pr[i][1]) \/ pr[i][2] > s.n) THEN {"C02.bounds"} ELSE {})
+  \cup (IF kind = "cms" /\ e.op \in {"add", "rem"} /\ Len(e.ks) = 1 /\ e.ret # Answer(s, e.ks[1][1]) THEN {"C02.ret_eq_check"} ELSE {})
+  \cup (IF kind = "qf" /\ \E i \in I : pr[i][2] # Answer(s, pr[i][1]) THEN {"C04.member"} ELSE {})
   \cup (IF kind = "qf" /\ Len(e.full) > 0 /\ ~FullOK(s, e) THEN {"C04.hashes"} ELSE {})
-  \cup (IF kind \in {"ebf", "rbf"} /\ \E i \in 1..Len(s.subs) : e.aux.ns[i] > T.est THEN {IF kind = "ebf" THEN "C09.cap" ELSE "C10.cap"} ELSE {})
+  \cup (IF kind \in {"cko", "ccko"} /\ e.op # "addfail" /\ \E i \in I : Owed(s, pr[i][1]) > 0 /\ pr[i][2] = 0 THEN {"C03.kept"} ELSE {})
+  \cup (IF kind \in {"cko", "ccko"} /\ e.op = "addfail" /\ e.aux.lost > 0 THEN {"C03.failed_add_keeps"} ELSE {})
+  \cup (IF kind = "ccko" /\ e.op # "addfail" /\ \E i \in I : pr[i][2] # Answer(s, pr[i][1]) THEN {"C08.cc_exact"} ELSE {})
+  \cup (IF kind = "cko" /\ e.op # "addfail" /\ e.n # Cardinality(DOMAIN s.out) THEN {"C14.count.cuckoo"} ELSE {})
+  \cup (IF kind = "ccko" /\ e.op # "addfail" /\ (e.n # SumBag(s.out) \/ e.aux.uniq # Cardinality(DOMAIN s.out)) THEN {"C14.count.ccuckoo"} ELSE {})
+  \cup (IF kind \in {"ebf", "rbf"} /\ \E i \in 1..Len(e.aux.ns) : e.aux.ns[i] > T.est THEN {IF kind = "ebf" THEN "C09.cap" ELSE "C10.cap"} ELSE {})
   \cup (IF kind = "ebf" /\ ~s.manual /\ Len(e.aux.ns) - 1 # (IF s.eff = 0 THEN 0 ELSE ((s.eff + T.est - 1) \div T.est) - 1) THEN {"C09.growth"} ELSE {})
   \cup (IF kind = "rbf" /\ (Len(e.aux.ns) < 1 \/ Len(e.aux.ns) > T.qmax) THEN {"C10.bounds"} ELSE {})
-  \cup (IF kind = "rbf" /\ \E i \in presentKeys : LET k == pr[i][1] IN
-            s.ins[k] > 0 /\ ~s.man[k] /\ s.eff - s.ins[k] < (T.qmax - 1) * T.est /\ pr[i][2] = 0 THEN {"C10.window"} ELSE {})
-  \cup (IF kind # "qf" /\ \E i \in presentKeys : pr[i][2] # Answer(s, pr[i][1]) THEN {"DRIFT.answer"} ELSE {})
-  \cup (IF kind # "qf" /\ Len(e.full) > 0 /\ ~FullOK(s, e) THEN {"DRIFT.state"} ELSE {})
+  \cup (IF kind = "rbf" /\ \E i \in I : LET k == pr[i][1] IN
+            k \in DOMAIN s.ins /\ k \notin s.man /\ s.eff - s.ins[k] < (T.qmax - 1) * T.est /\ pr[i][2] = 0 THEN {"C10.window"} ELSE {})
+  \cup (IF kind \notin {"qf", "cko", "ccko"} /\ \E i \in I : pr[i][2] # Answer(su, pr[i][1]) THEN {"DRIFT.answer"} ELSE {})
+  \cup (IF kind \notin {"qf", "cko", "ccko"} /\ ~unionEv /\ Len(e.full) > 0 /\ ~FullOK(s, e) THEN {"DRIFT.state"} ELSE {})
   \cup (IF kind = "qf" /\ e.aux.q # s.q THEN {"DRIFT.q"} ELSE {})
 
 Init == tid = 1 /\ l = 1 /\ st = InitState(1) /\ fails = {}
